@@ -3,7 +3,6 @@ CONSTANTS
   MaxSessions = 3
   MaxMsgs = 2
   MaxInc = 2
-  Mutant = "none"
+  Mutant = "remove_unlocks_early"
 INVARIANTS Discipline SilenceAfterRemove OneLife
 CHECK_DEADLOCK FALSE
-PROPERTIES RemoveTerminates Retried
